@@ -809,6 +809,25 @@ pub fn fab_probes(prop: &str, seed: u64, n: usize, rep: &mut Report) {
                 let (data, o) = match api_name {
                     "raw" => {
                         let (o, _) = api::raw_lzma(&payload, p.lc, p.lp, p.pb, dict, size, None);
+                        // the same probe on a decoder OBJECT that has just decoded a long valid stream and was reset:
+                        // whatever the object kept (window, counters) must not make the copy acceptable
+                        let reused = {
+                            use lzma_rs::decompress::raw::{LzmaDecoder, LzmaParams, LzmaProperties};
+                            let warm = coding::encode_program(&random_walk(&mut StdRng::seed_from_u64(7), &WalkCfg { nsyms: 300, props: p, max_dist: dict as u64, lit_alphabet: 7 }), p);
+                            crate::io::catch(|| {
+                                let mut d = LzmaDecoder::new(LzmaParams::new(LzmaProperties { lc: p.lc, lp: p.lp, pb: p.pb }, dict, Some(warm.out.len() as u64)), None).unwrap();
+                                let mut sink = vec![];
+                                let first_ok = d.decompress(&mut &warm.payload[..], &mut sink).is_ok();
+                                d.reset(Some(size));
+                                let mut out = vec![];
+                                let r = d.decompress(&mut &payload[..], &mut out);
+                                (first_ok, r.is_ok(), out.len())
+                            })
+                        };
+                        if let crate::io::Caught::Done((true, true, n)) = reused {
+                            rep.violation(prop, format!("raw dict {}: a copy beyond the produced output is accepted ({} bytes) by a decoder object that decoded another stream before and was reset", dict, n),
+                                json!({"kind": "bytes", "api": "raw-reused", "dict": dict, "props": p, "size": size, "data_hex": hex(&payload), "expect": "err"}));
+                        }
                         (payload.clone(), o)
                     }
                     "oneshot" => {
